@@ -44,10 +44,30 @@ var cellNames = map[string][]string{
 }
 
 type cellExec struct {
-	fn    *ssa.Function
-	atom  func(v ssa.Value) (cellAtom, bool)
-	env   map[string]int // atom name -> cell index
-	notes []string
+	fn     *ssa.Function
+	atom   func(v ssa.Value) (cellAtom, bool)
+	env    map[string]int // atom name -> cell index
+	notes  []string
+	parent *cellExec                    // set while a helper the function delegates to is executed in its place
+	bind   map[*ssa.Parameter]ssa.Value // parameters of the delegate -> arguments (values of the parent)
+	depth  int
+}
+
+// bound: v is a parameter of a delegate that stands for a value of the calling helper.
+func (e *cellExec) bound(v ssa.Value) (ssa.Value, bool) {
+	if p, ok := v.(*ssa.Parameter); ok && e.parent != nil {
+		if a, ok := e.bind[p]; ok {
+			return a, true
+		}
+	}
+	return nil, false
+}
+
+func (e *cellExec) atomOf(v ssa.Value) (cellAtom, bool) {
+	if a, ok := e.bound(v); ok {
+		return e.parent.atomOf(stripIface(a))
+	}
+	return e.atom(v)
 }
 
 func stripIface(v ssa.Value) ssa.Value {
@@ -70,6 +90,9 @@ func stripIface(v ssa.Value) ssa.Value {
 // scalar: the numeric samples of a comparable operand (atom, len(atom), constant).
 func (e *cellExec) scalar(v ssa.Value) (samples []int64, isNilable bool, ok bool) {
 	v = stripIface(v)
+	if a, ok := e.bound(v); ok {
+		return e.parent.scalar(a)
+	}
 	if c, isC := v.(*ssa.Const); isC {
 		if c.Value == nil {
 			return []int64{0}, true, true
@@ -81,7 +104,7 @@ func (e *cellExec) scalar(v ssa.Value) (samples []int64, isNilable bool, ok bool
 		}
 		return nil, false, false
 	}
-	if a, isA := e.atom(v); isA {
+	if a, isA := e.atomOf(v); isA {
 		switch a.kind {
 		case "pos", "bool":
 			return cellSamples[a.kind][e.env[a.name]], false, true
@@ -91,7 +114,7 @@ func (e *cellExec) scalar(v ssa.Value) (samples []int64, isNilable bool, ok bool
 		return nil, false, false
 	}
 	if call, isCall := v.(*ssa.Call); isCall && isLenCall(call) {
-		if a, isA := e.atom(stripIface(call.Call.Args[0])); isA && a.kind == "slice" {
+		if a, isA := e.atomOf(stripIface(call.Call.Args[0])); isA && a.kind == "slice" {
 			return cellSamples["slice"][e.env[a.name]], false, true
 		}
 	}
@@ -113,7 +136,7 @@ func (e *cellExec) cond(v ssa.Value) (bool, bool) {
 			}
 			return uniform(s, func(a int64) bool { return a < 0 })
 		}
-		if a, ok := e.atom(x); ok && a.kind == "bool" {
+		if a, ok := e.atomOf(x); ok && a.kind == "bool" {
 			return e.env[a.name] == 1, true
 		}
 	case *ssa.BinOp:
@@ -154,7 +177,7 @@ func (e *cellExec) cond(v ssa.Value) (bool, bool) {
 		}
 		return first, set
 	default:
-		if a, ok := e.atom(v); ok && a.kind == "bool" {
+		if a, ok := e.atomOf(v); ok && a.kind == "bool" {
 			return e.env[a.name] == 1, true
 		}
 	}
@@ -177,7 +200,10 @@ func (e *cellExec) term(v ssa.Value, depth int) string {
 		return "…"
 	}
 	v = stripIface(v)
-	if a, ok := e.atom(v); ok {
+	if a, ok := e.bound(v); ok {
+		return e.parent.term(a, depth+1)
+	}
+	if a, ok := e.atomOf(v); ok {
 		return a.name
 	}
 	switch x := v.(type) {
@@ -242,6 +268,19 @@ func (e *cellExec) run() string {
 					if p == prev {
 						v = phi.Edges[i]
 					}
+				}
+			}
+			// a helper that hands its work to a sibling (nodeSliceLast = nodeSliceIndex(ns, len(ns)-1)): the sibling is
+			// executed on the same cell, its parameters standing for the arguments
+			if c, ok := stripIface(v).(*ssa.Call); ok && !c.Call.IsInvoke() && e.depth < 3 {
+				if cal := c.Call.StaticCallee(); cal != nil && cal != e.fn && cal.Blocks != nil && fnPkgPath(cal) == fnPkgPath(e.fn) && len(naturalLoops(cal)) == 0 {
+					sub := &cellExec{fn: cal, atom: e.atom, env: e.env, parent: e, bind: map[*ssa.Parameter]ssa.Value{}, depth: e.depth + 1}
+					for i, p := range cal.Params {
+						if i < len(c.Call.Args) {
+							sub.bind[p] = c.Call.Args[i]
+						}
+					}
+					return sub.run()
 				}
 			}
 			return e.term(v, 0)
